@@ -93,6 +93,12 @@ def generate(G):
                     "Seed::Explicit(Dom::D4)", "quick" if t0 else "thorough",
                     {"program": desc, "leaves": [[2], [2]], "tracked": [t0, t1], "seed": "explicit D4"}, unwind=6)
 
+    # ---- (iii) data-dependent control flow (non-merging decision tree)
+    for it, tier in ((1, "quick"), (2, "thorough"), (3, "experimental")):
+        G.ob("c01_control_flow_%d" % it, "C01", "control_flow", "c01::control_flow(s, %d)" % it, unwind=7, tier=tier, heavy=True,
+             skeleton={"program": "README loop: c = c + a*b; if c[0] > t { c = c*a }", "iterations": it, "leaves_of_the_decision_tree": 2 ** it,
+                       "shape": [1]}, domains="a, b, c, seed: D4; threshold t in {0.5, 2.5, 4.5, 6.5}")
+
     # ---- (ii) curated programs
     L = G.leaf
     cur = [
@@ -102,16 +108,16 @@ def generate(G):
         ("diamond_omitted", "Diamond", [L([2]), L([2])], "Omitted", "thorough", 6, (), False),
         ("square", "Square", [L([3])], "Explicit(Dom::D4)", "quick", 6, (), False),
         ("squarechain3", "SquareChain3", [L([1], "D2")], "Explicit(Dom::D4)", "quick", 6, (), False),
-        ("chain5", "Chain5", [L([2]), L([2])], "Explicit(Dom::D2)", "quick", 6, (), False),
+        ("chain5", "Chain5", [L([2]), L([2])], "Explicit(Dom::D2)", "thorough", 6, (), False),
         ("fan3", "Fan3", [L([2]), L([2])], "Explicit(Dom::D4)", "thorough", 6, (), False),
         ("bcastshare_2x3_3", "BcastShare", [L([2, 3]), L([3])], "Explicit(Dom::D2)", "thorough", 12, (), False),
-        ("bcastshare_2x2_1x2", "BcastShare", [L([2, 2]), L([1, 2])], "Explicit(Dom::D4)", "quick", 8, (), False),
+        ("bcastshare_2x2_1x2", "BcastShare", [L([2, 2]), L([1, 2])], "Explicit(Dom::D4)", "thorough", 8, (), False),
         ("bcastshare_2x2_2x1", "BcastShare", [L([2, 2]), L([2, 1])], "Explicit(Dom::D4)", "thorough", 8, (), False),
         ("bcasttwice_2_2x2", "BcastTwice", [L([2]), L([2, 2]), L([2, 2], tracked=False)], "Explicit(Dom::D4)", "quick", 9, (), False),
         ("unarymix", "UnaryMix", [L([2]), L([2])], "Explicit(Dom::D4)", "quick", 6, ("powf",), False),
-        ("divrecip", "DivRecip", [L([2]), L([2], "Pos")], "Explicit(Dom::D4)", "quick", 6, ("powf",), False),
+        ("divrecip", "DivRecip", [L([2]), L([2], "Pos")], "Explicit(Dom::D4)", "thorough", 6, ("powf",), False),
         ("divsum", "DivSum", [L([1, 2], "Pos")], "Explicit(Dom::D4)", "quick", 6, ("powf",), True),
-        ("sumbcast", "SumBcast", [L([2, 2, 2], "D2")], "Explicit(Dom::D2)", "quick", 14, (), False),
+        ("sumbcast", "SumBcast", [L([2, 2, 2], "D2")], "Explicit(Dom::D2)", "thorough", 14, (), False),
         ("reshapemix", "ReshapeMix", [L([2, 3], "D2"), L([3, 2], "D2")], "Explicit(Dom::D2)", "quick", 16, (), False),
         ("matmulshare", "MatmulShare", [L([2, 2], "D2"), L([2, 2], "D2"), L([2], "D2")], "Explicit(Dom::D2)", "quick", 14, (), False),
         ("relumix", "ReluMix", [L([2], "Sgn"), L([2], "Sgn")], "Explicit(Dom::D4)", "quick", 6, (), False),
